@@ -617,7 +617,7 @@ class MQTTProtocol(MQTTBaseProtocol):
         for _, reply in self.factory.windowPubRelease[self.addr].items():
             self._retryRelease(reply, dup=True)
         for _, request in self.factory.windowPublish[self.addr].items():
-            if request.protocol is not self:    # not what was published while waiting for CONNACK
+            if request.alarm is None:   # not what was already sent while waiting for CONNACK
                 self._retryPublish(request, dup=True)
 
     # --------------------------------------------------------------------------
